@@ -301,9 +301,38 @@ def _slug(s):
     return "".join(ch if ch.isalnum() else "_" for ch in s)[-60:]
 
 
+def replay_isolated(path) -> Outcome:
+    """replay in a fresh interpreter (no module- or object-level state left over from earlier evaluations in this process):
+    what `./vf replay <file>` will do when somebody re-runs the file"""
+    import subprocess
+    code = "import sys, json\nfrom pyvc import rtc\no = rtc.replay(sys.argv[1])\nprint('@@' + json.dumps([o.status, o.clause, o.detail, o.observed], default=str))"
+    try:
+        r = subprocess.run([sys.executable, "-c", code, path], capture_output=True, text=True, timeout=900, env=dict(os.environ))
+        line = [l for l in r.stdout.splitlines() if l.startswith("@@")]
+        if not line:
+            return Outcome("ok", detail="replay subprocess gave no outcome: " + (r.stderr or "")[-300:])
+        st, cl, de, ob = json.loads(line[-1][2:])
+        return Outcome(st, cl, de, ob)
+    except subprocess.TimeoutExpired:
+        return Outcome("ok", detail="replay subprocess timed out")
+
+
 def replay(path) -> Outcome:
     body = json.load(open(path))
     inputs = from_jsonable(body["inputs"])
+    hist = (body.get("extra") or {}).get("history") or []
+    if hist:
+        # history-dependent failure: re-run the recorded preceding inputs (outcomes ignored), then the failing input
+        for h in hist:
+            _replay_one(body, from_jsonable(h))
+        o = _replay_one(body, inputs)
+        if o.status == "fail":
+            o.detail = "after the %d preceding call(s) recorded in extra.history: %s" % (len(hist), o.detail)
+        return o
+    return _replay_one(body, inputs)
+
+
+def _replay_one(body, inputs) -> Outcome:
     if body["kind"] == "contract":
         load_all()
         return run_contract(CONTRACTS[body["where"]], inputs)
